@@ -1145,6 +1145,10 @@ func runC12(c *Ctx) {
 	c.trackerRules(map[string]string{"R1": "R1", "R2": "R2", "R3": "R3", "R4": "R4", "R5": "R5", "R6": "R6", "R7": "R7", "R8": "R8", "R9": "R9", "R10": "R10"})
 	c.setterRule("R11")
 	r.Rule("R12", "names are not special to queries and removals: an exported tracker method that creates nothing returns nil / false only under a condition computed from tracker state (a lookup that found nothing, a membership test, the own-record test), never because of the argument's value alone")
+	r.Rule("R14", "a mode change is applied whatever its argument says: the mode parsers decide only on the mode character, the sign, the number of arguments left and whether the named nick is on the channel - never on the text of an argument or of the stored value (the model removes a key on -k whichever key the line quotes)")
+	c.modeDecisionsRule("R14")
+	r.Rule("R15", "every operation returns: no value whose String / Error / Format method takes the tracker lock (the tracker itself) is handed to a logging or fmt call while that lock is held - a logger that formats its arguments would acquire the lock a second time on the same stack (shared with C14.R1: the mutex is never acquired while already held)")
+	c.formatterReacquireRule("R15", c.stateFuncs())
 	r.Rule("R13", "every name the server uses can be tracked: a method that creates a nick or a channel (NewNick, NewChannel) refuses only the empty name and a name the tracker already holds - every condition its nil returns depend on is an emptiness test of an argument or is computed from tracker state (no alphabet or format check: a legal nick such as one with a backtick would never be tracked)")
 	c.stateDecidedRule("R12", "R13")
 }
@@ -1361,6 +1365,10 @@ func runC13(c *Ctx) {
 	r.Rule("R5", "every successful connect wipes the tracker (shared with C07.R4)")
 	r.Rule("R6", "the parameters the handlers index are the ones the server sent: the parser keeps a trailing parameter whenever a \" :\" section exists, an empty one included - TOPIC #chan : clears the topic (shared with C01.R6)")
 	c.parserTrailingRule("R6")
+	r.Rule("R8", "the tracker changes only as the protocol prescribes: every mutating tracker call made by a state-table handler (directly or in its helpers) is one of the effects listed for that verb - JOIN: NewChannel/NewNick/NickInfo/Associate, PART/KICK: Dissociate, QUIT: DelNick, NICK: ReNick, MODE/324: ChannelModes/NickModes, TOPIC/332: Topic, 311/352: NickInfo (+ WHO-flag NickModes), 353: NewNick/Associate/ChannelModes, 671: NickModes; a handler for any other verb (a 366 that purges users NAMES did not list, say) may not mutate the tracker")
+	c.closedEffectsRule("R8")
+	r.Rule("R9", "the tracker can only hold a channel's modes and its users' details if the client asks: once the client's own JOIN has created the channel, every path of the JOIN handler sends MODE and WHO for it (directly or through a helper that does so on every path) - a query put in a queue whose state survives a dropped connection is never sent")
+	c.joinQueriesRule("R9")
 	r.Rule("R7", "every name the server uses can be tracked: a method that creates a nick or a channel (NewNick, NewChannel) refuses only the empty name and a name the tracker already holds - every condition its nil returns depend on is an emptiness test of an argument or is computed from tracker state (no alphabet or format check: a legal nick such as one with a backtick would never be tracked) (shared with C12.R13)")
 	c.stateDecidedRule("", "R7")
 
@@ -1525,10 +1533,12 @@ func (c *Ctx) onlySkippedByIsOn(cs ssa.Instruction, nk ssa.Value) bool {
 
 // namesRule: the 353 handler associates every listed name with the channel
 // and maps the prefixes ~ & @ % + to q a o h v.
-func (c *Ctx) namesRule(h *ssa.Function) {
+func (c *Ctx) namesRule(h *ssa.Function) { c.namesRuleAs("R1", h) }
+
+func (c *Ctx) namesRuleAs(rule string, h *ssa.Function) {
 	r := c.R
 	if h == nil {
-		r.Add("R1", "handler:353", "-", "", "a state handler is registered for 353", false, "no entry")
+		r.Add(rule, "handler:353", "-", "", "a state handler is registered for 353", false, "no entry")
 		return
 	}
 	r.Funcs[c.FuncKey(h)] = true
@@ -1542,7 +1552,7 @@ func (c *Ctx) namesRule(h *ssa.Function) {
 			}
 		}
 	}
-	r.Add("R1", "353:channel", posIn(c, getCh), c.FuncKey(h), "the NAMES channel is line.Args[2]", getCh != nil, "GetChannel(line.Args[2])")
+	r.Add(rule, "353:channel", posIn(c, getCh), c.FuncKey(h), "the NAMES channel is line.Args[2]", getCh != nil, "GetChannel(line.Args[2])")
 	want := map[byte]string{'~': "+q", '&': "+a", '@': "+o", '%': "+h", '+': "+v"}
 	got := map[string]bool{}
 	nAssoc := 0
@@ -1554,14 +1564,14 @@ func (c *Ctx) namesRule(h *ssa.Function) {
 		case "Associate":
 			nAssoc++
 			ok := c.LoopDepth(cs.Block()) >= 1
-			r.Add("R1", "353:associate", c.InstrPos(cs), c.FuncKey(h), "each listed name is associated with the channel", ok, "inside the loop over names")
+			r.Add(rule, "353:associate", c.InstrPos(cs), c.FuncKey(h), "each listed name is associated with the channel", ok, "inside the loop over names")
 		case "ChannelModes":
 			// the privilege shown by NAMES is recorded for every listed name: not only for names first seen on this line
 			for _, cd := range CondsAt(cs.Block()) {
 				cd2 := unwrapNot(cd)
 				if ex, ok := cd2.V.(*ssa.Extract); ok {
 					if tc, ok := ex.Tuple.(*ssa.Call); ok && c.isTrackerCall(tc) && tc.Call.Method.Name() == "IsOn" {
-						r.Add("R1", "353:prefix-unconditional", c.InstrPos(cs), c.FuncKey(h), "the NAMES prefix is applied whether or not the nick was already on the channel", false, "the privilege update depends on the IsOn result at "+c.InstrPos(cd.If))
+						r.Add(rule, "353:prefix-unconditional", c.InstrPos(cs), c.FuncKey(h), "the NAMES prefix is applied whether or not the nick was already on the channel", false, "the privilege update depends on the IsOn result at "+c.InstrPos(cd.If))
 					}
 				}
 				if bo, ok := cd2.V.(*ssa.BinOp); ok && (isNilConst(bo.X) || isNilConst(bo.Y)) {
@@ -1570,7 +1580,7 @@ func (c *Ctx) namesRule(h *ssa.Function) {
 						other = bo.Y
 					}
 					if tc, ok := other.(*ssa.Call); ok && c.isTrackerCall(tc) && tc.Call.Method.Name() == "GetNick" {
-						r.Add("R1", "353:prefix-unconditional", c.InstrPos(cs), c.FuncKey(h), "the NAMES prefix is applied whether or not the nick was already known", false, "the privilege update depends on GetNick at "+c.InstrPos(cd.If))
+						r.Add(rule, "353:prefix-unconditional", c.InstrPos(cs), c.FuncKey(h), "the NAMES prefix is applied whether or not the nick was already known", false, "the privilege update depends on GetNick at "+c.InstrPos(cd.If))
 					}
 				}
 			}
@@ -1594,7 +1604,7 @@ func (c *Ctx) namesRule(h *ssa.Function) {
 								if want[byte(k)] == m {
 									got[m] = true
 								} else if _, isPfx := want[byte(k)]; isPfx {
-									r.Add("R1", "353:prefix:"+string(rune(k)), c.InstrPos(rt), c.FuncKey(hf), "prefix maps to the right privilege", false, fmt.Sprintf("prefix %q sets %s", rune(k), m))
+									r.Add(rule, "353:prefix:"+string(rune(k)), c.InstrPos(rt), c.FuncKey(hf), "prefix maps to the right privilege", false, fmt.Sprintf("prefix %q sets %s", rune(k), m))
 								}
 							}
 						}
@@ -1610,7 +1620,7 @@ func (c *Ctx) namesRule(h *ssa.Function) {
 							if want[byte(k)] == m {
 								got[m] = true
 							} else if _, isPfx := want[byte(k)]; isPfx {
-								r.Add("R1", "353:prefix:"+string(rune(k)), c.InstrPos(cs), c.FuncKey(h), "prefix maps to the right privilege", false, fmt.Sprintf("prefix %q sets %s", rune(k), m))
+								r.Add(rule, "353:prefix:"+string(rune(k)), c.InstrPos(cs), c.FuncKey(h), "prefix maps to the right privilege", false, fmt.Sprintf("prefix %q sets %s", rune(k), m))
 							}
 						}
 					}
@@ -1625,8 +1635,8 @@ func (c *Ctx) namesRule(h *ssa.Function) {
 		}
 	}
 	sort.Strings(miss)
-	r.Add("R1", "353:prefix-table", c.Pos(h.Pos()), c.FuncKey(h), "NAMES prefixes ~ & @ % + set q a o h v", len(miss) == 0, "missing "+strings.Join(miss, ","))
-	r.Floor("R1", "Associate calls in the 353 handler", nAssoc, 1)
+	r.Add(rule, "353:prefix-table", c.Pos(h.Pos()), c.FuncKey(h), "NAMES prefixes ~ & @ % + set q a o h v", len(miss) == 0, "missing "+strings.Join(miss, ","))
+	r.Floor(rule, "Associate calls in the 353 handler", nAssoc, 1)
 }
 
 func posIn(c *Ctx, in ssa.Instruction) string {
@@ -2073,4 +2083,213 @@ func containsStr(l []string, s string) bool {
 		}
 	}
 	return false
+}
+
+// allowedEffects: which mutating tracker methods the state handler of a verb
+// may call at all (the effect table plus the creation calls of JOIN and NAMES
+// and the WHO-flag modes). A handler for another verb may not mutate the
+// tracker: nothing in the protocol prescribes an effect for it.
+var allowedEffects = map[string][]string{
+	"JOIN": {"Associate", "NewChannel", "NewNick", "NickInfo"}, "PART": {"Dissociate"}, "KICK": {"Dissociate"}, "QUIT": {"DelNick"},
+	"NICK": {"ReNick"}, "MODE": {"ChannelModes", "NickModes"}, "TOPIC": {"Topic"}, "332": {"Topic"}, "324": {"ChannelModes"},
+	"311": {"NickInfo"}, "352": {"NickInfo", "NickModes"}, "353": {"NewNick", "Associate", "ChannelModes"}, "671": {"NickModes"},
+}
+
+// closedEffectsRule: every mutating tracker call made by a state-table
+// handler (directly or in helpers it calls) is one the protocol prescribes
+// for that verb.
+func (c *Ctx) closedEffectsRule(rule string) {
+	r, a := c.R, c.A
+	var verbs []string
+	for v := range a.StTable {
+		verbs = append(verbs, v)
+	}
+	sort.Strings(verbs)
+	n := 0
+	for _, verb := range verbs {
+		h := a.StTable[verb]
+		reach := c.Closure([]*ssa.Function{h}, func(from *ssa.Function, e Edge) bool {
+			return e.Kind != EdgeGo && !e.Site.Common().IsInvoke() && e.Callee.Package() == c.Client && (e.Callee.Object() == nil || !e.Callee.Object().Exported())
+		})
+		for _, fn := range reach.Order {
+			for _, cs := range CallSites(fn) {
+				if !c.isTrackerCall(cs) {
+					continue
+				}
+				m := cs.Common().Method.Name()
+				if trackerReadOnly[m] {
+					continue
+				}
+				n++
+				r.Add(rule, fmt.Sprintf("effect-allowed:%s:%s@%s", verb, m, c.FuncKey(fn)), c.InstrPos(cs), c.FuncKey(fn), "the "+verb+" handler changes the tracker only in the way the protocol prescribes for "+verb, containsStr(allowedEffects[verb], m), m+" is not an effect of "+verb+" (allowed: "+strings.Join(allowedEffects[verb], ", ")+")")
+			}
+		}
+	}
+	r.Floor(rule, "mutating tracker calls in state handlers", n, 13)
+}
+
+// modeDecisionsRule: the mode parsers of the tracker decide only on the mode
+// character, the sign, the number of arguments left and whether a named nick
+// is on the channel.
+func (c *Ctx) modeDecisionsRule(rule string) {
+	r := c.R
+	n := 0
+	for _, name := range []string{"(*channel).parseModes", "(*nick).parseModes"} {
+		fn := c.Func(c.State, name)
+		if !r.Anchor(rule, name, fn != nil) {
+			continue
+		}
+		reach := c.Closure([]*ssa.Function{fn}, func(from *ssa.Function, e Edge) bool {
+			return e.Kind == EdgeCall && !e.Site.Common().IsInvoke() && e.Callee.Package() == c.State
+		})
+		for _, f := range reach.Order {
+			if !c.InModuleFn(f) {
+				continue
+			}
+			seenPhi := map[*ssa.Phi]bool{}
+			var okV func(v ssa.Value, d int) (bool, string)
+			okV = func(v ssa.Value, d int) (bool, string) {
+				if d > 12 {
+					return false, "expression too deep"
+				}
+				if ph, isPh := v.(*ssa.Phi); isPh {
+					if seenPhi[ph] {
+						return true, ""
+					}
+					seenPhi[ph] = true
+				}
+				switch t := v.(type) {
+				case *ssa.Const, *ssa.Parameter:
+					// a boolean or byte parameter of a helper (the sign, the mode character)
+					if isStringType(t.Type()) {
+						return false, "compares the text of " + v.Name()
+					}
+					return true, ""
+				case *ssa.Phi:
+					for _, e := range t.Edges {
+						if e == ssa.Value(t) {
+							continue
+						}
+						if ok, w := okV(e, d+1); !ok {
+							return false, w
+						}
+					}
+					return true, ""
+				case *ssa.UnOp:
+					if t.Op == token.NOT {
+						return okV(t.X, d+1)
+					}
+					if t.Op == token.MUL {
+						// modes[i]: a byte of the mode string; a local bool cell
+						if ia, isIA := t.X.(*ssa.IndexAddr); isIA && isByte(t.Type()) {
+							_ = ia
+							return true, ""
+						}
+						if al, isAl := t.X.(*ssa.Alloc); isAl && !isStringType(t.Type()) {
+							_ = al
+							return true, ""
+						}
+					}
+					return false, "depends on " + v.String()
+				case *ssa.Index:
+					if isByte(t.Type()) {
+						return true, ""
+					}
+					return false, "depends on " + v.String()
+				case *ssa.BinOp:
+					if isStringType(t.X.Type()) {
+						return false, "compares strings (" + t.X.Name() + " " + t.Op.String() + " " + t.Y.Name() + ")"
+					}
+					if ok, w := okV(t.X, d+1); !ok {
+						return false, w
+					}
+					return okV(t.Y, d+1)
+				case *ssa.Call:
+					if b, isB := t.Call.Value.(*ssa.Builtin); isB && b.Name() == "len" {
+						return true, ""
+					}
+					return false, "depends on the result of " + calleeName(&t.Call)
+				case *ssa.Extract:
+					if lk, isL := t.Tuple.(*ssa.Lookup); isL && lk.CommaOk && t.Index == 1 {
+						return true, ""
+					}
+					return false, "depends on " + v.String()
+				case *ssa.Convert:
+					return okV(t.X, d+1)
+				}
+				return false, "depends on " + v.String()
+			}
+			funcInstrs(f, func(in ssa.Instruction) {
+				iff, ok := in.(*ssa.If)
+				if !ok {
+					return
+				}
+				n++
+				okC, why := okV(iff.Cond, 0)
+				if okC {
+					why = "decides on the mode character, the sign, the argument count or membership"
+				}
+				r.Add(rule, fmt.Sprintf("mode-decision:%s#%d", c.FuncKey(f), n), c.InstrPos(iff), c.FuncKey(f), "mode parsing decides only on the mode character, the sign, the number of arguments left and whether the named nick is on the channel", okC, why)
+			})
+		}
+	}
+	r.Floor(rule, "decisions in the mode parsers", n, 20)
+}
+
+// mustCall: instruction in is a plain call of target, or of a module function
+// every path of which makes such a call.
+func (c *Ctx) mustCall(in ssa.Instruction, target *ssa.Function, seen map[*ssa.Function]bool) bool {
+	if _, isGo := in.(*ssa.Go); isGo {
+		return false
+	}
+	if _, isD := in.(*ssa.Defer); isD {
+		return false
+	}
+	cc := callOf(in)
+	if cc == nil || cc.IsInvoke() {
+		return false
+	}
+	cal := cc.StaticCallee()
+	if cal == nil {
+		return false
+	}
+	if cal == target {
+		return true
+	}
+	if !c.InModuleFn(cal) || cal.Blocks == nil || seen[cal] {
+		return false
+	}
+	seen[cal] = true
+	defer delete(seen, cal)
+	ok, _ := AllPathsFromEntryPass(cal, func(x ssa.Instruction) bool { return c.mustCall(x, target, seen) })
+	return ok
+}
+
+// joinQueriesRule: C13.R9 - once the client's own JOIN has created the
+// channel, every path of the handler asks the server for the channel's modes
+// (MODE) and its users (WHO).
+func (c *Ctx) joinQueriesRule(rule string) {
+	r, a := c.R, c.A
+	h := a.StTable["JOIN"]
+	modeFn, whoFn := c.Func(c.Client, "(*Conn).Mode"), c.Func(c.Client, "(*Conn).Who")
+	if !r.Anchor(rule, "JOIN state handler, (*Conn).Mode, (*Conn).Who", h != nil && modeFn != nil && whoFn != nil) {
+		return
+	}
+	n := 0
+	for _, dc := range c.deepTrackerCalls(h, "NewChannel") {
+		n++
+		at := dc.Anchor
+		for _, q := range []struct {
+			name string
+			fn   *ssa.Function
+		}{{"MODE", modeFn}, {"WHO", whoFn}} {
+			ok, bad := AllPathsPass(at, false, func(x ssa.Instruction) bool { return c.mustCall(x, q.fn, map[*ssa.Function]bool{}) })
+			why := "every path after the channel is created sends " + q.name
+			if !ok {
+				why = "the return at " + c.InstrPos(bad) + " is reached without " + q.name + " having been sent"
+			}
+			r.Add(rule, fmt.Sprintf("join-query:%s#%d", q.name, n), c.InstrPos(at), c.FuncKey(h), "the client's own JOIN is followed by a "+q.name+" query for the channel on every path", ok, why)
+		}
+	}
+	r.Floor(rule, "NewChannel sites in the JOIN handler", n, 1)
 }
